@@ -369,16 +369,21 @@ class _TSocket:
             return b''
 
 
-@obligation(params=_B_PARAMS, tags={2: 'data', 3: 'TIMEOUT', 4: 'EOF'}, timeout=400, split=('tmode',),
-            note='B: SocketSpawn.read_nonblocking')
-def B_socket(now, w0, r0, st, e1, e2, e3, k2, k3, w1, w2, size, T, tmode, poll):
+@obligation(params=dict(_B_PARAMS, own=OptInt(0, 1000)), tags={2: 'data', 3: 'TIMEOUT', 4: 'EOF'}, timeout=400,
+            split=('tmode',),
+            note='B: SocketSpawn.read_nonblocking; own: the timeout the socket object carries before the call (None = '
+                 'blocking, 0 = non-blocking, any number) must play no role (added after a seeded change that skipped '
+                 'settimeout(None) was missed: the socket stub always started in blocking mode)')
+def B_socket(now, w0, r0, st, e1, e2, e3, k2, k3, w1, w2, size, T, tmode, poll, own=None):
     try:
         w = _mk_world(now, w0, r0, pick(st, 0, 2), e1, e2, e3, k2, k3, w1, w2)
     except Skip:
         return SKIP
     timeout = [None, 0, T, -1][pick(tmode, 0, 3)]
     eff = [None, 0, T, T][tmode]
-    sp = SK.SocketSpawn(_TSocket(w), timeout=T)
+    sock = _TSocket(w)
+    sock.t = own
+    sp = SK.SocketSpawn(sock, timeout=T)
     had = w0 > r0
     t_start = w.now
     try:
@@ -390,6 +395,8 @@ def B_socket(now, w0, r0, st, e1, e2, e3, k2, k3, w1, w2, size, T, tmode, poll):
         out = 'eof'
     except Skip:
         return SKIP
+    if sock.t is not own and sock.t != own:
+        return 0                           # the socket's own timeout was not put back
     return _judge_R(w, t_start, eff, out, had)
 
 
